@@ -49,6 +49,14 @@ type Contract struct {
 	Line        int
 	IsVar       bool // contract of a function-typed package variable
 	Splits      []*SExpr
+	Asserts     []*AssertAt
+}
+
+// AssertAt is an assertion anchored just before the K-th call (in block order) of the named builtin or function.
+type AssertAt struct {
+	Callee string
+	K      int
+	Clause *Clause
 }
 
 type PureFn struct {
@@ -364,6 +372,26 @@ func (cs *Contracts) LoadFile(path, pkg string) error {
 				ls.Unroll = n
 			default:
 				cs.errf(path, it.line, "unknown loop clause %q", r2)
+			}
+		case "assert":
+			// assert call NAME K [tags label] expr
+			if cur == nil {
+				cs.errf(path, it.line, "assert outside func")
+				continue
+			}
+			fs := strings.SplitN(rest, " ", 4)
+			if len(fs) < 4 || fs[0] != "call" {
+				cs.errf(path, it.line, "bad assert clause (want: assert call NAME K [tags] expr)")
+				continue
+			}
+			k, err := strconv.Atoi(fs[2])
+			if err != nil {
+				cs.errf(path, it.line, "bad assert ordinal")
+				continue
+			}
+			c := mk("assert", fs[3])
+			if c != nil {
+				cur.Asserts = append(cur.Asserts, &AssertAt{Callee: fs[1], K: k, Clause: c})
 			}
 		case "split":
 			if cur == nil {
